@@ -8,6 +8,7 @@ import (
 
 	"github.com/goghcrow/yae/types"
 	"github.com/goghcrow/yae/util"
+	"github.com/goghcrow/yae/verifhook"
 )
 
 const maxLevel = 100
@@ -40,6 +41,7 @@ func typeOfRV(rv reflect.Value) (ty *types.Type, err error) {
 }
 
 func typeOf(rt reflect.Type, lv int) *types.Type {
+	verifhook.Step("conv.typeOf")
 	if lv > maxLevel {
 		panic("max nested depth exceeded")
 	}
